@@ -105,10 +105,19 @@ def c13_session(binary, plan, positions, delays=None):
                     break
             e.send(position_cmd(pos["root"], pos["moves"]))
             n = e.n_out()
+            cpu0 = e.cpu_ns()
             e.send(go)
             got = e.wait_line(lambda x: x.startswith("bestmove"), n, 60.0)
             if got is None:
                 v, sig, text = crash_or_hang(e, f"'{go}' after setoption name {name} value {value}")
+                m = re.search(r"movetime (\d+)", go)
+                cpu1 = e.cpu_ns()
+                if v == "inconclusive" and m and cpu0 is not None and cpu1 is not None and (cpu1 - cpu0) / 1e6 > int(m.group(1)) + 10_000:
+                    # a fixed move time is a hard bound on thinking: the engine has burnt ten seconds of its OWN CPU time
+                    # beyond it and still has not moved (load cannot explain CPU time the process itself consumed)
+                    v, sig = "violated", "search-did-not-complete"
+                    text = (f"'{go}' after setoption name {name} value {value}: no bestmove after {(cpu1 - cpu0) / 1e6:.0f} ms of the "
+                            f"engine's own CPU time")
                 r.update({"verdict": v, "signature": f"c13.{sig}.search", "what": text})
                 results.append(r)
                 break  # violated or inconclusive: never reuse an engine whose answer went missing (a late answer would be
@@ -174,7 +183,8 @@ def c13_stage(out, tier, seed):
                 for v in values[i:i + chunk]:
                     pos = rng.choice(positions)
                     if o["name"] == "Move Overhead":
-                        go = rng.choice(["go depth 3", "go wtime 2000 btime 2000 winc 0 binc 0", "go wtime 300 btime 300 movestogo 2"])
+                        go = rng.choice(["go depth 3", "go wtime 2000 btime 2000 winc 0 binc 0", "go wtime 300 btime 300 movestogo 2",
+                                         "go movetime 200", "go movetime 40"])
                     else:
                         go = "go depth 3"
                     plan.append((o["name"], v, pos, go))
@@ -588,6 +598,57 @@ def c14_stage(out, tier, seed):
         elif r["verdict"] == "inconclusive":
             out.add_inconclusive({"stage": "timed-release", "what": r["what"]})
 
+    # an option that arrives in the instant after bestmove (the finished search thread still holds the tables, hook H3
+    # keeps that window open) is refused by this engine; whatever it does with the value later must not happen on the
+    # clock of the next timed search
+    def refused_option_session(hash_mb):
+        e = Engine(binary, {"VERIF_UCI_DELAYS": "go.after_bestmove=60"})
+        r = {"verdict": "held", "refused": False}
+        try:
+            if not settle(e, 60.0):
+                return {"verdict": "inconclusive", "what": "engine not ready"}
+            pos = roomy_positions[0]
+            e.send(position_cmd(pos["root"], pos["moves"]))
+            n = e.n_out()
+            e.send("go depth 2")
+            if e.wait_line(lambda x: x.startswith("bestmove"), n, 60.0) is None:
+                v, sig, text = crash_or_hang(e, "go depth 2")
+                return {"verdict": v, "signature": f"c14.{sig}", "what": text}
+            n = e.n_out()
+            e.send(f"setoption name Hash value {hash_mb}")
+            if not settle(e, 120.0):
+                v, sig, text = crash_or_hang(e, f"setoption name Hash value {hash_mb} right after bestmove")
+                return {"verdict": v, "signature": f"c14.{sig}", "what": text}
+            with e.cv:
+                r["refused"] = any("Unable to change" in x for _, x in e.out_lines[n:])
+            time.sleep(0.15)
+            for clock in (200, 200):
+                cpu0, n = e.cpu_ns(), e.n_out()
+                e.send(f"go wtime {clock} btime {clock}")
+                got = e.wait_line(lambda x: x.startswith("bestmove"), n, 60.0)
+                cpu1 = e.cpu_ns()
+                if got is None:
+                    v, sig, text = crash_or_hang(e, f"go wtime {clock} after a refused Hash {hash_mb}")
+                    return {**r, "verdict": v, "signature": f"c14.{sig}", "what": text}
+                if cpu0 is not None and cpu1 is not None and (cpu1 - cpu0) / 1e6 > clock:
+                    return {**r, "verdict": "violated", "signature": "c14.flagged.after-option-in-bestmove-window",
+                            "what": f"'setoption name Hash value {hash_mb}' sent right after a bestmove ({'refused' if r['refused'] else 'accepted'}), then "
+                                    f"'go wtime {clock} btime {clock}' consumed {(cpu1 - cpu0) / 1e6:.0f} ms of the engine's own CPU time"}
+        finally:
+            e.close()
+        return r
+
+    for hash_mb in ([1024, 768, 512, 1000] if thorough else [1024, 640]):
+        r = refused_option_session(hash_mb)
+        out.evaluations += 1
+        out.features["timed_searches_after_option_in_bestmove_window"] = out.features.get("timed_searches_after_option_in_bestmove_window", 0) + 1
+        if r.get("refused"):
+            out.features["timed_searches_after_refused_option"] = out.features.get("timed_searches_after_refused_option", 0) + 1
+        if r["verdict"] == "violated":
+            out.add_violation("timed-release", r["signature"], r["what"], {"kind": "py", "check": "c14-refused", "hash": hash_mb})
+        elif r["verdict"] == "inconclusive":
+            out.add_inconclusive({"stage": "timed-release", "what": r["what"]})
+
     mt_cases = []
     # middlegame-like positions far from the fifty-move boundary, so that the search cannot run out of depth
     roomy = [p for p in positions if int(p["fen"].split()[4]) < 40 and sum(c.isalpha() for c in p["fen"].split()[0]) >= 12] or positions
@@ -813,6 +874,14 @@ def c08_stage(out, tier, seed):
             pos = rng.choice(mates) if rng.random() < 0.35 else rng.choice(positions)
             plan.append((pos, rng.choice([1, 3, 5, 6, 7, 8] if pos in mates else [1, 2, 4, 5, 6]), rng.random() < 0.15))
         sessions.append((bins[i % len(bins)], plan))
+    # the longest lines: simple endings searched to depth 26..60 report lines of 30..45 plies (info lines of 250..330
+    # bytes); every one of them is replayed move by move like the short ones
+    long_roots = [("8/8/4k3/8/8/4K3/4P3/8 w - - 0 1", 32), ("8/p7/P7/8/8/8/8/K1k5 w - - 0 1", 60), ("8/8/8/p7/P7/8/8/K6k w - - 0 1", 60),
+                  ("8/8/8/8/8/2k5/8/K2R4 w - - 0 1", 26), ("4k3/4p3/8/4K3/8/8/8/8 b - - 0 1", 32)]
+    for j, (f, d) in enumerate(long_roots):
+        pos = {"root": f, "moves": "", "fen": f, "legal": []}
+        for b in (bins if thorough else bins[:1]):
+            sessions.append((b, [(pos, d if b[0] == "release" else min(d, 36) - 6, False)]))
     with ThreadPoolExecutor(max_workers=10) as ex:
         results = list(ex.map(lambda s: (s[0][0], c08_session(s[0][1], s[1])), sessions))
     all_blocks = []
@@ -821,6 +890,10 @@ def c08_stage(out, tier, seed):
         for (pos, depth, blk) in blocks:
             all_blocks.extend(blk)
             owners.append((bname, pos, depth))
+            longest = max([len(x.split("\t")[4].split()) for x in blk if x.startswith("info\t") and len(x.split("\t")) > 4] or [0])
+            out.extra["x_longest_reported_line_plies"] = max(out.extra.get("x_longest_reported_line_plies", 0), longest)
+            if longest >= 32:
+                out.features["binary_searches_reporting_lines_of_32_plies_or_more"] = out.features.get("binary_searches_reporting_lines_of_32_plies_or_more", 0) + 1
     path = os.path.join(vc.BUILD, "tmp", f"c08-lines-{seed}.txt")
     open(path, "w").write("\n".join(all_blocks) + "\n")
     p = subprocess.run([harness, "oracle", "checklines", "--file", path], capture_output=True, text=True, timeout=600)
@@ -843,6 +916,88 @@ def c08_stage(out, tier, seed):
                      "searches (tables reused across a session; two in three searches of depth <= 4 also carry a movetime or a "
                      "clock, so that the depth limit binds next to a time limit) is judged by the same oracle")
     out.stage_info.append({"stage": "lines-binary", "searches": len(owners)})
+
+
+# ---------------------------------------------------------------------------------------
+# C11 — process-level: repetition against the game record handed over by 'position ... moves ...'
+
+def c11_stage(out, tier, seed):
+    """Games at whose end the side to move is hopelessly behind but has ONE move that re-creates a position of the game
+    record (since the last capture or pawn move). A search treats the re-created position as a draw the moment it is
+    reached, so whatever else it finds the root score cannot be below the draw score: final score >= 0."""
+    thorough = tier == "thorough"
+    harness = vc.build_harness("checked")
+    bins = [("release", vc.build_repo("release"))]
+    if thorough:
+        bins.append(("debug", vc.build_repo("debug")))
+    games = []
+    for line in oracle(harness, "repgames", ["--n", 600 if thorough else 96, "--seed", seed]):
+        f = line.split("\t")
+        if f[0] == "rep":
+            games.append({"root": f[1], "moves": f[2], "rep_move": f[3], "class": f[4], "legal": f[5].split()})
+    lock = threading.Lock()
+    per = 12
+    batches = [(bins[(i // per) % len(bins)], games[i:i + per]) for i in range(0, len(games), per)]
+
+    def work(b):
+        (bname, binary), gs = b
+        e = Engine(binary)
+        try:
+            e.send("setoption name Hash value 16")
+            if not settle(e, 60):
+                out.add_inconclusive({"stage": f"repetition-{bname}", "what": "engine not ready"})
+                return
+            for k, g in enumerate(gs):
+                depth = (1, 3, 5, 2)[k % 4]
+                e.send("ucinewgame")
+                e.send(position_cmd(g["root"], g["moves"]))
+                n = e.n_out()
+                e.send(f"go depth {depth}")
+                got = e.wait_line(lambda x: x.startswith("bestmove"), n, 120.0)
+                if got is None:
+                    v, sig, text = crash_or_hang(e, f"go depth {depth} after {position_cmd(g['root'], g['moves'])}")
+                    with lock:
+                        if v == "violated":
+                            out.add_violation(f"repetition-{bname}", f"c11.binary.{sig}", text, {"kind": "py", "check": "c11", "binary": bname, "game": g, "depth": depth})
+                        else:
+                            out.add_inconclusive({"stage": f"repetition-{bname}", "what": text})
+                    return
+                with e.cv:
+                    infos = [x for _, x in e.out_lines[n:got[0]] if x.startswith("info depth") and " score " in x]
+                score = None
+                if infos:
+                    t = infos[-1].split()
+                    i = t.index("score")
+                    score = (t[i + 1], int(t[i + 2]))
+                with lock:
+                    out.evaluations += 1
+                    key = "binary_repetition_" + g["class"].replace("-", "_").replace(".", "_")
+                    out.features[key] = out.features.get(key, 0) + 1
+                    out.features["binary_repetition_searches"] = out.features.get("binary_repetition_searches", 0) + 1
+                    mv = got[1].split()[1] if len(got[1].split()) > 1 else "?"
+                    if mv not in g["legal"]:
+                        out.add_violation(f"repetition-{bname}", "c11.binary.illegal-bestmove", f"'{got[1]}' after {position_cmd(g['root'], g['moves'])}",
+                                          {"kind": "py", "check": "c11", "binary": bname, "game": g, "depth": depth})
+                    elif score is None:
+                        out.add_inconclusive({"stage": f"repetition-{bname}", "what": "no info line with a score"})
+                    elif (score[0] == "cp" and score[1] < 0) or (score[0] == "mate" and score[1] < 0):
+                        out.add_violation(f"repetition-{bname}", "c11.binary.repetition-against-game-record-missed." + g["class"].split(".")[0],
+                                          f"after '{position_cmd(g['root'], g['moves'])}' the move {g['rep_move']} re-creates a position of the game "
+                                          f"record ({g['class']}), i.e. a draw, but 'go depth {depth}' reports score {score[0]} {score[1]} (bestmove {mv})",
+                                          {"kind": "py", "check": "c11", "binary": bname, "game": g, "depth": depth})
+        finally:
+            e.close()
+
+    with ThreadPoolExecutor(max_workers=12) as ex:
+        list(ex.map(work, batches))
+    out.groups["c11-binary"] = len({(g["root"], g["moves"]) for g in games})
+    if games:
+        out.samples.append({"position_command": position_cmd(games[0]["root"], games[0]["moves"]), "repeating_move": games[0]["rep_move"], "class": games[0]["class"]})
+    out.rules.append("process-level: games sent with 'position ... moves ...' in which the side to move is lost on material but "
+                     "has one move re-creating an earlier position of the game record (the first position of the reversible tail - from "
+                     "the FEN, after a capture, after a pawn move - or a later one; built and verified by refchess): the reported score "
+                     "of a fixed-depth search must not be below the draw score")
+    out.stage_info.append({"stage": "repetition-binary", "games": len(games)})
 
 
 # ---------------------------------------------------------------------------------------
@@ -937,6 +1092,15 @@ def c12_stage(out, tier, seed):
     n = 160 if thorough else 24
     lock = threading.Lock()
 
+    def fresh_with(mb, target, depth):
+        a = Engine(binary)
+        try:
+            a.send(f"setoption name Hash value {mb}")
+            settle(a, 60)
+            return transcript(a, target, depth)
+        finally:
+            a.close()
+
     def work(i):
         r = random.Random(seed * 1000 + i)
         # every third comparison searches whatever position the engine holds (a freshly started engine and
@@ -958,13 +1122,30 @@ def c12_stage(out, tier, seed):
         settle(b, 60)
         hist = []
         lost = False
-        for _ in range(r.randint(1, 6)):
+        # in every third history a different Hash value is sent right after one of the bestmoves. In the delayed sessions
+        # this engine refuses it (the finished search thread still holds the tables); either way the engine after
+        # ucinewgame must equal a fresh one with the options in force - the refused value or, if the engine chose to
+        # apply it after all, the new one
+        new_hash = r.choice([x for x in (1, 2, 16, 32) if x != hash_mb]) if i % 3 == 1 else None
+        refused = False
+        n_hist = r.randint(1, 6)
+        opt_at = r.randrange(n_hist)
+        for k in range(n_hist):
             p = r.choice(positions)
             d = r.choice([2, 4, 6, 7])
             hist.append((p["fen"], d))
             if transcript(b, p, d) is None:
                 lost = True  # an answer went missing: a late one could be attributed to the next search
                 break
+            if new_hash is not None and k == opt_at:
+                n0 = b.n_out()
+                b.send(f"setoption name Hash value {new_hash}")
+                hist.append(("setoption Hash", new_hash))
+                if not settle(b, 120):
+                    lost = True
+                    break
+                with b.cv:
+                    refused = any("Unable to change" in x for _, x in b.out_lines[n0:])
         tb = None
         if not lost:
             b.send("ucinewgame")
@@ -972,11 +1153,16 @@ def c12_stage(out, tier, seed):
                 tb = transcript(b, target, depth)
         crashed = b.saw_panic() or a.saw_panic()
         b.close()
+        t2 = None
+        if new_hash is not None and ta is not None and tb is not None and ta != tb:
+            t2 = fresh_with(new_hash, target, depth)
         with lock:
             out.evaluations += 1
             out.features["binary_ucinewgame_comparisons"] = out.features.get("binary_ucinewgame_comparisons", 0) + 1
             if target is None:
                 out.features["binary_ucinewgame_then_go_without_position"] = out.features.get("binary_ucinewgame_then_go_without_position", 0) + 1
+            if new_hash is not None:
+                out.features["binary_histories_with_option_change" + ("_refused" if refused else "_accepted")] = out.features.get("binary_histories_with_option_change" + ("_refused" if refused else "_accepted"), 0) + 1
             if delayed:
                 out.features["binary_ucinewgame_right_after_bestmove_with_delay"] = out.features.get("binary_ucinewgame_right_after_bestmove_with_delay", 0) + 1
             if ta is None or tb is None:
@@ -984,6 +1170,14 @@ def c12_stage(out, tier, seed):
                     out.features["binary_crash_not_judged_here"] = out.features.get("binary_crash_not_judged_here", 0) + 1
                 else:
                     out.add_inconclusive({"stage": "ucinewgame-binary", "what": "no bestmove within 120 s"})
+            elif new_hash is not None and ta != tb and t2 == tb:
+                # the engine applied the new value (at once, or at ucinewgame): a fresh engine with that value agrees
+                out.features["binary_ucinewgame_fresh_with_the_new_option_value"] = out.features.get("binary_ucinewgame_fresh_with_the_new_option_value", 0) + 1
+            elif new_hash is not None and not refused and ta != tb:
+                diff = next((x, y) for x, y in zip((t2 or []) + [""], tb + [""]) if x != y)
+                out.add_violation("ucinewgame-binary", "c12.binary.ucinewgame-not-fresh",
+                                  f"after {len(hist)} steps incl. an accepted 'setoption name Hash value {new_hash}' and ucinewgame, 'go depth {depth}' differs from a freshly started engine with Hash {new_hash}: fresh '{diff[0]}' vs '{diff[1]}'",
+                                  {"kind": "py", "check": "c12", "target": target, "depth": depth, "hash": hash_mb, "history": hist})
             elif ta != tb:
                 diff = next((x, y) for x, y in zip(ta + [""], tb + [""]) if x != y)
                 out.add_violation("ucinewgame-binary", "c12.binary.ucinewgame-not-fresh",
